@@ -2367,6 +2367,9 @@ func (p *Parser) parseDimension() (*Dimension, error) {
 	if err != nil {
 		return nil, err
 	} else if re != nil {
+		// Consume all trailing whitespace.
+		p.consumeWhitespace()
+
 		return &Dimension{Expr: re}, nil
 	}
 
